@@ -146,6 +146,12 @@ DEMOTE = {
     "BOUND-SAMESRC": ({"GEN-BLOCKS", "GEN-DEFS", "GEN-EXPR"}, lambda key: True),
     "RULE-COHERENCE": ({"GEN-KERNEL"}, lambda key: True),
     "RULE-SCOPED-NAMES": ({"GEN-KERNEL"}, lambda key: key.endswith(":fw-cache-key")),
+    # which temporaries a kernel stores to, and that each is declared in the kernel, is decided by executing whole kernels (stores to anything but a declared
+    # local or the output are execution errors there); the per-function "declared by the same function, spelled the same" reading is a second opinion
+    "ACCUMULATE-ONLY": ({"GEN-KERNEL", "EXPR-KERNEL", "GEN-KERNEL-FACET"}, lambda key: key.endswith(":undeclared")),
+    # the passes an expression goes through, their order and the real / complex treatment: EXPR-PREPROCESS interprets _analyze_expression with recording passes
+    "PIPE-FLAGS": ({"EXPR-PREPROCESS"}, lambda key: "_analyze_expression:" in key),
+    "TYPE-ROLES": ({"EXPR-PREPROCESS"}, lambda key: key.endswith("_analyze_expression:remove-complex-nodes")),
     "PERM-FLAG-IMPL": ({"GEN-INTEGRAL-DRIVER"}, lambda key: True),
     "EXPR-COEF-POS": ({"GEN-EXPRESSION-IR", "ANALYZE-OBJECTS"}, lambda key: True),
     "EXPR-LAYOUT": ({"GEN-EXPR", "GEN-EXPRESSION-IR"}, lambda key: True),
